@@ -120,7 +120,7 @@ def _registered_at_end(trace):
 class C07Stream(R.ScenarioStream):
     name = "timeline"
     coq_header = R.C07_HEADER
-    n_quick = 300
+    n_quick = 800
     n_thorough = 8000
 
     def gen(self, rng, tier):
@@ -265,7 +265,7 @@ class ActorStream(R.Stream):
     """ComponentMetricsResamplingActor end to end (real channels, real supervisor loop); oracle only."""
     name = "actor"
     coq_header = R.C07_HEADER
-    n_quick = 60
+    n_quick = 150
     n_thorough = 1500
 
     def gen(self, rng, tier):
